@@ -281,15 +281,38 @@ def _next(ctx, repo, gna):
     ctx.check(ok, "R-NEXT", "candidates = domain values after the current one", gna, gna.node, "")
     gvc = repo.func(S, "get_value_candidates")
     ctx.touch(gvc)
-    t = norm(gvc.node)
-    ok = f"candidates = list({gvc.params[0]}.domain)" in t and f"for v in {gvc.params[0]}.domain" in t and "if reached:\n            candidates.append(v)" in t.replace("                ", "            ") and f"if v != {gvc.params[1]}:" in t and "reached = True" in t
-    # append-before-mark: the current value itself is excluded
-    loop = [l for l in ast.walk(gvc.node) if isinstance(l, ast.For)]
-    if loop:
-        b = loop[0].body
-        i_app = [i for i, s in enumerate(b) if "candidates.append" in norm(s)]
-        i_mark = [i for i, s in enumerate(b) if "reached = True" in norm(s)]
-        ok = ok and i_app and i_mark and i_app[0] < i_mark[0]
+    gv_, gc_ = gvc.params[0], gvc.params[1]
+    ffv = FuncFacts(gvc.node)
+    # (1) no current value: the whole domain, in domain order
+    whole = [x for x in ast.walk(gvc.node) if (isinstance(x, ast.Return) and x.value is not None and norm(x.value) == f"list({gv_}.domain)")
+             or (isinstance(x, ast.Assign) and norm(x.value) == f"list({gv_}.domain)")]
+    ok = len(whole) == 1 and (f"{gc_} is None", True) in {(norm(a), b) for a, b in facts_at(ffv, whole[0])}
+    # (2) otherwise: the values after the current one; append-before-mark excludes the current value itself
+    loop = [l for l in ast.walk(gvc.node) if isinstance(l, ast.For) and norm(l.iter) == f"{gv_}.domain"]
+    ok = ok and len(loop) == 1
+    if ok:
+        lv = norm(loop[0].target)
+        ok = (f"{gc_} is None", False) in {(norm(a), b) for a, b in facts_at(ffv, loop[0])} or (f"{gc_} is not None", True) in {(norm(a), b) for a, b in facts_at(ffv, loop[0])}
+        n_app = n_mark = 0
+        for p_ in stmt_paths(loop[0].body):
+            app = [i for i, s_ in enumerate(p_.stmts) if isinstance(s_, ast.Expr) and isinstance(s_.value, ast.Call) and norm(s_.value.func).endswith(".append") and [norm(a) for a in s_.value.args] == [lv]]
+            mark = [i for i, s_ in enumerate(p_.stmts) if isinstance(s_, ast.Assign) and isinstance(s_.value, ast.Constant) and s_.value.value is True]
+            if app:
+                n_app += 1
+            if mark:
+                n_mark += 1
+                ok = ok and (p_.has_fact(f"{lv} != {gc_}", False) or p_.has_fact(f"{lv} == {gc_}", True) or p_.has_fact(f"{gc_} != {lv}", False) or p_.has_fact(f"{gc_} == {lv}", True))
+                ok = ok and (not app or app[0] < mark[0])
+                fl = norm(p_.stmts[mark[0]].targets[0])
+                # the append is licensed by the flag
+                for q_ in stmt_paths(loop[0].body):
+                    if any(isinstance(s_, ast.Expr) and isinstance(s_.value, ast.Call) and norm(s_.value.func).endswith(".append") for s_ in q_.stmts):
+                        ok = ok and q_.has_fact(fl, True)
+            else:
+                ok = ok and (not app or True)
+        ok = ok and n_app >= 1 and n_mark >= 1
+        inits = [a for a in ast.walk(gvc.node) if isinstance(a, ast.Assign) and isinstance(a.value, ast.Constant) and a.value.value is False]
+        ok = ok and len(inits) == 1 and not any(n is inits[0] for n in ast.walk(loop[0]))
     ctx.check(ok, "R-NEXT", "get_value_candidates: all values when there is no current value, otherwise exactly those after it in domain order", gvc, gvc.node,
               "re-trying the current value loops for ever; skipping one loses part of the search space")
     cl = [l for l in gna.node.body if isinstance(l, ast.For) and norm(l.iter) == "candidates"]
@@ -360,15 +383,21 @@ def _next(ctx, repo, gna):
     leaks = [s for s in ast.walk(pl) if isinstance(s, ast.Assign) and isinstance(s.value, ast.Tuple) and cand in [norm(e) for e in s.value.elts]]
     ctx.check(not leaks, "R-NEXT", "no (candidate, partial cost) pair is recorded inside the path loop", gna, leaks[0] if leaks else pl, "")
     # pruning
+    brks = [b for b in ast.walk(pl) if isinstance(b, ast.Break)]
     prunes = [i for i in ast.walk(pl) if isinstance(i, ast.If) and any(isinstance(b, ast.Break) for b in ast.walk(i))]
-    ok = len(prunes) == 1
+    ok = len(brks) == 1
     if ok:
-        tt = prunes[0].test
-        ok = isinstance(tt, ast.BoolOp) and isinstance(tt.op, ast.And) and norm(tt.values[0]) == f"{pmode} == 'min'"
-        if ok:
-            rest = tt.values[1]
-            comps = [c for c in ast.walk(rest) if isinstance(c, ast.Compare)]
-            ok = bool(comps) and all(len(c.ops) == 1 and isinstance(c.ops[0], ast.GtE) and norm(c.comparators[0]) == pub for c in comps) and any(norm(c.left) == "candidate_cost" for c in comps)
+        gs = [g for g in ff.guards_at(brks[0]) if g.kind == "if" and any(n is g.node for n in ast.walk(pl))]
+        tests = [g.node.test for g in gs if g.pol]
+        ok = len(tests) == len(gs) and bool(tests)
+        atoms = []
+        for tt in tests:
+            atoms += tt.values if isinstance(tt, ast.BoolOp) and isinstance(tt.op, ast.And) else [tt]
+        modes = [a for a in atoms if norm(a) in (f"{pmode} == 'min'", f"'min' == {pmode}")]
+        rest = [a for a in atoms if a not in modes]
+        comps = [c for a in rest for c in ast.walk(a) if isinstance(c, ast.Compare)]
+        ok = ok and len(modes) == 1 and bool(comps) and all(len(c.ops) == 1 and isinstance(c.ops[0], ast.GtE) and norm(c.comparators[0]) == pub for c in comps) and any(norm(c.left) == "candidate_cost" for c in comps) \
+            and all(isinstance(a, ast.Compare) or (isinstance(a, ast.BoolOp) and isinstance(a.op, ast.Or)) for a in rest)
     ctx.check(ok, "R-NEXT", "pruning: only when minimising, when the accumulated cost reaches the bound (>=)", gna, prunes[0] if prunes else pl,
               "partial sums are lower bounds of the final cost only for minimisation; a strict test keeps equal-cost assignments that cannot improve the bound, a test under max prunes improvable ones")
     last = gna.node.body[-1]
@@ -384,6 +413,8 @@ VARIANTS = [
      "            self.upper_bound,\n            self.mode,\n        )\n        if self.previous_var is None and self.upper_bound == 0:\n            next_val = None\n        if next_val is not None:\n            new_val, new_cost = next_val\n            new_path = current_path[:-1]", "break", "R-PATH"),
     ("tie_replaces_best", _S, "                    if self.mode == \"min\" and path_bound + cost < best_bound:", "                    if self.mode == \"min\" and path_bound + cost <= best_bound:", "break", "R-MODE"),
     ("single_constraint_per_pair", _S, "            var_constraints = constraints_for_variable(constraints, var)\n", "            var_constraints = constraints_for_variable(constraints, var)[:1]\n", "break", "R-NEXT"),
+    ("n_candidates_guard_clause", _S, "    candidates = []\n    if current_value is None:\n        candidates = list(variable.domain)\n    else:", "    if current_value is None:\n        return list(variable.domain)\n    candidates = []\n    if True:", "neutral"),
+    ("candidates_include_current", _S, "            if reached:\n                candidates.append(v)\n            if v != current_value:\n                continue\n            else:\n                reached = True", "            if v != current_value and not reached:\n                continue\n            reached = True\n            candidates.append(v)", "break", "R-NEXT"),
     ("partial_cost_returned", _S, "        pruned = False\n        for var, val, elt_cost in current_path:", "        pruned = False\n        found = None\n        for var, val, elt_cost in current_path:", "neutral"),
     ("return_after_break", _S, "        if not pruned:\n            return candidate, candidate_cost", "        return candidate, candidate_cost", "break", "R-NEXT"),
     ("prune_under_max", _S, "            if mode == \"min\" and (\n                candidate_cost >= upper_bound or ass_cost + elt_cost >= upper_bound\n            ):", "            if (\n                candidate_cost >= upper_bound or ass_cost + elt_cost >= upper_bound\n            ):", "break", "R-NEXT"),
